@@ -148,11 +148,15 @@ pub struct FaultCase {
     pub expect_abort: Vec<usize>,
     /// run the C07 leak scan on this execution
     pub scan_leak: bool,
+    /// record probes (needed by dynamic mutations that use the corrupted party's own key)
+    pub needs_probes: bool,
+    /// repetition index (fresh coins)
+    pub rep: usize,
 }
 
 impl FaultCase {
     pub fn new(cfg_ix: usize, plan: FaultPlan, class: String, label: String) -> Self {
-        FaultCase { cfg_ix, plan, class, label, dead_send: DeadSend::Err, sched: SchedKind::RoundRobin, tap: None, expect_abort: vec![], scan_leak: false }
+        FaultCase { cfg_ix, plan, class, label, dead_send: DeadSend::Err, sched: SchedKind::RoundRobin, tap: None, expect_abort: vec![], scan_leak: false, needs_probes: false, rep: 0 }
     }
 }
 
@@ -273,5 +277,106 @@ pub fn observe(cfg: &Config, fc: &FaultCase, run: &FaultRun, pilot_alloc: &[usiz
         "inputs": cfg.inputs.iter().map(|v| bits(v)).collect::<Vec<_>>(),
         "p_eval": cfg.p_eval,
         "p_out": cfg.p_out,
+        "leak": leak_obs(fc, run),
+        "rep": fc.rep,
     })
+}
+
+fn leak_obs(fc: &FaultCase, run: &FaultRun) -> Value {
+    if !fc.scan_leak {
+        return Value::Null;
+    }
+    let n = run.ex.outcomes.len();
+    let mut out = vec![];
+    for t in (0..n).filter(|p| *p != fc.plan.corrupt) {
+        let Some(d) = run.ex.probes.iter().find(|r| r.site == "delta" && r.index == t) else {
+            out.push(json!({"target": t, "no_delta_probe": true}));
+            continue;
+        };
+        let delta = u128::from_le_bytes(d.value[..16].try_into().unwrap());
+        let r = crate::leak::scan(&run.ex.net, delta, false);
+        out.push(json!({"target": t, "windows": r.windows, "kind": r.kind(), "direct": r.direct, "pair": r.pair}));
+    }
+    json!(out)
+}
+
+pub struct World {
+    pub cfgs: Vec<Config>,
+    pub pilots: Vec<Pilot>,
+    pub cases: Vec<FaultCase>,
+}
+
+impl World {
+    pub fn new(tier: &str, seed: u64) -> Self {
+        let cfgs = fault_configs(tier, seed);
+        let pilots: Vec<Pilot> = cfgs.iter().map(pilot).collect();
+        World { cfgs, pilots, cases: vec![] }
+    }
+
+    pub fn run_case(&self, idx: usize) -> Value {
+        let fc = &self.cases[idx];
+        let cfg = &self.cfgs[fc.cfg_ix];
+        let run = exec_fault(cfg, fc, fc.scan_leak || fc.needs_probes);
+        observe(cfg, fc, &run, &self.pilots[fc.cfg_ix].baseline_alloc)
+    }
+
+    pub fn child(&self, a: crate::shard::ShardArgs) {
+        crate::sim::set_quiet_panics(true);
+        crate::shard::child_loop(self.cases.len(), a.shard, a.of, a.from, |i| self.run_case(i));
+    }
+
+    /// Runs all cases in sharded children and hands every result to `judge`.
+    pub fn drive(
+        &self,
+        prop: &str,
+        tier: &str,
+        seed: u64,
+        rep: &mut crate::report::Report,
+        mut judge: impl FnMut(&mut crate::report::Report, &FaultCase, &Config, &Value),
+    ) {
+        for (p, cfg) in self.pilots.iter().zip(&self.cfgs) {
+            if !p.ok {
+                rep.harness_error(format!("pilot run of {} is not an honest success", cfg.name));
+            }
+            for e in &p.schema_errors {
+                rep.harness_error(format!("schema table out of date: {e}"));
+            }
+        }
+        let results = crate::shard::run_parent(prop, tier, seed, self.cases.len(), crate::runner::threads(), &[]);
+        for (fc, r) in self.cases.iter().zip(results) {
+            rep.evaluations += 1;
+            let cfg = &self.cfgs[fc.cfg_ix];
+            let via = format!("label={} mut={}", fc.label, fc.class);
+            match r {
+                crate::shard::CaseResult::Aborted(desc, stderr) => {
+                    if prop == "C08" && (stderr.contains("memory allocation of") || stderr.contains("capacity overflow")) {
+                        rep.violation(format!("process abort (allocation failure) via {via}"), json!({"cfg": cfg.name, "corrupt": fc.plan.corrupt, "class": fc.class, "label": fc.label, "abort": desc, "stderr": stderr}));
+                    } else {
+                        rep.harness_error(format!("shard died ({desc}) in case {via}: {stderr}"));
+                    }
+                }
+                crate::shard::CaseResult::Done(v) => {
+                    let end = v["end"].as_str().unwrap_or("");
+                    if end.starts_with("HarnessError") {
+                        rep.harness_error(format!("{end} in {via}"));
+                        continue;
+                    }
+                    if end == "StepLimit" {
+                        rep.inconclusive("step limit");
+                        continue;
+                    }
+                    judge(rep, fc, cfg, &v);
+                }
+            }
+        }
+        rep.set("configurations", json!(self.cfgs.iter().map(|c| c.name.clone()).collect::<Vec<_>>()));
+    }
+}
+
+pub fn honest_of(v: &Value) -> Vec<usize> {
+    v["honest"].as_array().map(|a| a.iter().filter_map(|x| x.as_u64()).map(|x| x as usize).collect()).unwrap_or_default()
+}
+
+pub fn effective(fc: &FaultCase, v: &Value) -> bool {
+    v["applied"].as_u64().unwrap_or(0) > 0 || v["tap_fired"].as_u64().unwrap_or(0) > 0 || fc.class.starts_with("crash") || fc.class.starts_with("silent")
 }
